@@ -117,6 +117,7 @@ def _request(draw, cols, flags_ok, need_explicit):
         colname='explicit' if need_explicit else draw(st.sampled_from(['auto', 'auto', 'explicit'])),
         verbose=draw(st.sampled_from([False, False, True])),
         load_as=draw(st.sampled_from(['list', 'list', 'tuple'])),
+        dup=draw(st.sampled_from([None] * 6 + [0, 1])),  # occasionally a name is listed twice: the request is a set of columns
     )
 
 
@@ -436,7 +437,10 @@ def _call(fn, r, colname, load):
     dt = np.dtype(r['dtype'])
     kw = dict(dtype=dt if r.get('dtype_as') == 'instance' else dt.type, verbose=bool(r['verbose']))
     if load is not None:
-        kw['load'] = list(load) if r.get('load_as', 'list') == 'list' else tuple(load)
+        load = list(load)
+        if r.get('dup') is not None and load:
+            load = load + [load[r['dup'] % len(load)]]
+        kw['load'] = load if r.get('load_as', 'list') == 'list' else tuple(load)
     if colname is not None:
         kw['colname'] = colname
     if r['lp'] is not None:
